@@ -20,6 +20,9 @@ def scenarios(quick):
                 out.append({'kind': kind, 'target': 'p_echo', 'inputs': list(range(1, n + 1)), 'close': True, 'pipe': pipe})
         for pipe in ('default', 'supplied'):
             out.append({'kind': kind, 'target': 'p_poison', 'inputs': [1, 99, 3], 'close': True, 'pipe': pipe})
+        # the target leaves with something which is not an Exception (base path only: no landing sweep of its own)
+        out.append({'kind': kind, 'target': 'p_sysexit', 'inputs': [1, 99, 3], 'close': True, 'pipe': 'default', 'base_only': True})
+        out.append({'kind': kind, 'target': 'p_sysexit', 'inputs': [1, 99, 3], 'close': True, 'pipe': 'supplied', 'base_only': True})
         # a consumer already blocked on the stream while the worker is alive
         out.append({'kind': kind, 'target': 'p_echo', 'inputs': [1, 2], 'close': True, 'pipe': 'default', 'consume': 'live'})
     return out
@@ -184,7 +187,7 @@ def judge(case, obs):
     inputs = case.get('inputs', [])
     exp = []
     for x in inputs:
-        if (case['target'] == 'p_poison' and x == 99) or x in ('POISON', 'STUBBORN'):
+        if (case['target'] in ('p_poison', 'p_sysexit') and x == 99) or x in ('POISON', 'STUBBORN'):
             break
         exp.append([x] if case['target'] == 'slow_echo' else x * 10)
     res = obs.get('results')
